@@ -142,6 +142,22 @@ def same_user():
     return out
 
 
+def slow_logins():
+    """A user manager whose account lookup and password check take a few loop iterations: while one session's USER or PASS is being
+    answered, another session logs in, logs in again or sends anything else - each login ends as it would alone."""
+    out = []
+    other = [[["send", 2, "USER u2"]], [["send", 2, "USER u1"]], [["send", 2, "USER u1"], ["send", 2, "PASS pw1"]], [["send", 2, "USER nobody"]],
+             [["send", 2, "PWD"]], [["send", 2, "USER u2"], ["send", 2, "USER u2"]]]
+    for mine in ([["send", 1, "USER u1"], ["nq", ["send", 1, "PASS pw1"]]], [["send", 1, "USER u1"], ["nq", ["send", 1, "PASS nope"]]],
+                 [["nq", ["send", 1, "USER u2"]]], [["send", 1, "USER u2"], ["nq", ["send", 1, "USER u1"]]]):
+        for oth in other:
+            for gap in (0, 1, 2, 3):
+                st = [["connect", 1], ["connect", 2]] + mine + [["iter", gap]] + [["nq", x] for x in oth[:1]] + [["tick", 0]] + oth[1:]
+                st += [["send", 1, "PWD"], ["send", 2, "PWD"], ["send", 1, "MLST f"], ["send", 2, "MLST f"]]
+                out.append(st)
+    return out
+
+
 def dev_cfg(pool):
     return gen.std_cfg(ns=3)
 
@@ -181,6 +197,9 @@ def run(tier, seed):
     su = same_user()
     corecheck.validate(chk, cfg, gen.STD_TREE, su, label="same-user")
     corecheck.validate(chk, gen.std_cfg(ns=3, backend="async"), gen.STD_TREE, su, label="same-user:async")
+    sl = slow_logins()
+    for tag, extra in (("auth", {"slow_auth": 4}), ("both", {"slow_auth": 3, "slow_user": {"*": 2}})):
+        corecheck.validate(chk, gen.std_cfg(ns=2, **extra), gen.STD_TREE, sl, label="slow-logins:" + tag)
     lk = lookers()
     corecheck.validate(chk, cfg, gen.STD_TREE, lk, label="lookers")
     if tier != "quick":
